@@ -70,7 +70,9 @@ fn main() {
         std::process::exit(2);
     }
     // panics are outputs, not noise
-    std::panic::set_hook(Box::new(|_| {}));
+    if std::env::var("VERIF_PANIC_VERBOSE").is_err() {
+        std::panic::set_hook(Box::new(|_| {}));
+    }
     match args[1].as_str() {
         "gen" => {
             let stream = args[2].as_str();
@@ -86,9 +88,10 @@ fn main() {
                 "exec" => vmstreams::exec(&mut r, count, thorough, &mut out),
                 "feemult" => smallstreams::feemult(&mut r, count, thorough, &mut out),
                 "confirm" => smallstreams::confirm(&mut r, count, thorough, &mut out),
-                "apply" | "seal" | "chain" | "mint" => {
+                "apply" | "seal" | "chain" | "mint" | "hostile" => {
                     let em = match stream {
                         "apply" => statestream::Emphasis { mutate: 300, pool_ops: 6, stake_ops: 8, mint_ops: 8, batches: 0, blocks: 2, chain_ops: false },
+                        "hostile" => statestream::Emphasis { mutate: 800, pool_ops: 12, stake_ops: 6, mint_ops: 6, batches: 2, blocks: 3, chain_ops: false },
                         "mint" => statestream::Emphasis { mutate: 60, pool_ops: 2, stake_ops: 1, mint_ops: 70, batches: 4, blocks: 3, chain_ops: false },
                         "seal" => statestream::Emphasis { mutate: 80, pool_ops: 30, stake_ops: 2, mint_ops: 2, batches: 5, blocks: 3, chain_ops: false },
                         _ => statestream::Emphasis { mutate: 100, pool_ops: 10, stake_ops: 6, mint_ops: 4, batches: 0, blocks: 4, chain_ops: true },
